@@ -105,6 +105,9 @@ def processLine (acc : DAcc) (line : String) : IO DAcc := do
         let hist := (j.getObjValAs? Nat "hist").toOption.getD 0
         for (c, msg) in Monitors.checkState env st.st do
           IO.println s!"MONITOR hist={hist} i=genesis prop={c} {msg}"
+        -- the input assumption of the registration theorem (C10Registration): the store order of node records is injective
+        if !rankInjB env then
+          IO.println s!"MONITOR hist={hist} i=genesis prop=C10 clause=rankInj cls=none"
         -- a genesis the application accepted: the model of the parameter validation accepts its parameters
         if let some why := paramsRefusal st.st.params then
           IO.println s!"MISMATCH hist={hist} i=genesis op=genesisparams field=params impl=accepted model=refused:{why}"
